@@ -69,7 +69,9 @@ def main():
     evaluations = rejected = 0
     # regression corpus first: axis-angle alignment with a massless final state below an isobar
     cfgs = [mg.default_cfg("chic0_omegaomega_hel", align="aa", dyn="bw"),
-            mg.default_cfg("psi2s_ggjpsi_hel", align="aa", keep=[3, 17])]
+            mg.default_cfg("psi2s_ggjpsi_hel", align="aa", keep=[3, 17]),
+            mg.default_cfg("lc_pkpi_hel", align="dpd3", stable=[1, 2, 3], scalar_m0=True,
+                           rename_nth={"par": list(range(30)), "kin": [1]})]
     for _ in range(n):
         name = rng.choice(names)
         cfg = mg.random_cfg(rng, name)
